@@ -80,8 +80,10 @@ def gen_plan(rng, index, tier):
     if bp["sfp"] and rng.random() < 0.35:
         bp["sfp_stock"] = rng.choice([1, 2, 3])  # assemblies stored in the pool from the start (also without tracking)
     cfg = {"reactor": "gen", "blueprint": bp, "settings": st, "actors": [], "rejected": rng.random() < 0.2}
+    if rng.random() < 0.15:
+        cfg["viaDatabase"] = True
     steps = []
-    kinds = ["swap", "swap", "cascade", "discharge_fresh", "discharge_pool", "add", "remove", "remove"]
+    kinds = ["swap", "swap", "cascade", "discharge_fresh", "discharge_pool", "add", "remove", "remove", "readd"]
     if cfg["rejected"]:
         kinds += ["add_occupied", "remove_absent", "readd_present", "readd_removed", "add_copy", "add_stale_counter", "swap_with_pool", "discharge_twice", "discharge_incoming_in_core"]
     for _ in range(rng.randint(4, 40)):
@@ -170,11 +172,13 @@ class World:
         self.o2h = {}  # id(object) -> handle
         self.fp = {}  # block handle -> fingerprint
         self.next = 0
+        self.cells0 = set()
         for a in self.core:
             h = self.register(a)
             ij = tuple(int(x) for x in a.spatialLocator.indices[:2])
             self.m.loc[ij] = h
             self.m.initial.add(h)
+            self.cells0.add(ij)
         if self.sfp is not None:
             for a in self.sfp:
                 h = self.register(a)
@@ -341,6 +345,23 @@ class World:
             core.add(obj, core.spatialGrid[p[0], p[1], 0])
             m.add(h, p)
             return True
+        if op == "readd":
+            # an assembly that was taken out of the model is put back where it was (no location given:
+            # it remembers its place), provided that place is still free
+            cands = []
+            for h in sorted(m.purged):
+                a_obj = self.h2o[h]
+                ij = tuple(int(x) for x in a_obj.spatialLocator.indices[:2]) if a_obj.spatialLocator is not None else None
+                if a_obj.parent is None and ij is not None and ij not in m.loc and (ij in self.free or ij in self.cells0):
+                    cands.append((h, ij))
+            if not cands:
+                return False
+            h, ij = cands[st["a"] % len(cands)]
+            core.add(self.h2o[h])
+            m.purged.discard(h)
+            m.loc[ij] = h
+            self.probe_readd = getattr(self, "probe_readd", 0) + 1
+            return True
         if op == "remove":
             a = self.pick_core(st["a"])
             if a is None or len(m.loc) <= 1:
@@ -459,6 +480,21 @@ def execute(plan):
         plan2 = dict(plan)
         plan2["config"] = cfg
         cs, o, _ = enginea.build_life(cfg, scratch, 0, d)
+        if cfg.get("viaDatabase"):
+            # the model the fuel handler works on was read back from a database (a restart together with a shuffle)
+            import os
+
+            from armi.bookkeeping.db.database import Database
+
+            db = Database(os.path.join(scratch, "c14via.h5"), "w")
+            db.open()
+            try:
+                db.writeInputsToDB(cs)
+                db.writeToDB(o.r)
+                r2 = db.load(0, 0, cs=cs, bp=o.r.blueprints, allowMissing=True)
+            finally:
+                db.close()
+            o.reattach(r2, cs)
         w = World(plan2, o)
         w.check(-1, {"op": "init"})
         changed = 0
